@@ -7,6 +7,14 @@
 use std::io::Write;
 
 fn main() {
+    // An ignored SIGCHLD is inherited across exec (`trap '' CHLD` in the
+    // invoking shell); the children would then be reaped by the kernel and
+    // waiting for a command would fail although it ran.
+    #[cfg(unix)]
+    unsafe {
+        uucore::libc::signal(uucore::libc::SIGCHLD, uucore::libc::SIG_DFL);
+    }
+
     // `std::env::args()` panics on an argument that is not valid UTF-8.
     let args = match std::env::args_os()
         .map(std::ffi::OsString::into_string)
